@@ -5,10 +5,10 @@
  * bytes/64 blocks of the stream, tail = buf[0 .. bytes%64) = the stream bytes after the last complete
  * block, bytes).  For a call write(hash, data, len) with bytes = B0 and B1 = B0 + len (no wrap):
  *   (a) bytes' = B1;
- *   (b) exactly B1/64 - B0/64 blocks are handed to the compression function, each exactly once, in
- *       stream order, always on state pointer hash->s; block number j of this call, offset o, holds
- *       the stream byte at position p = 64 (B0/64 + j) + o, where stream(p) = old buf[p%64] for p < B0
- *       and data[p - B0] for p >= B0;
+ *   (b) exactly the stream blocks number B0/64 .. B1/64 - 1 are handed to the compression function, each
+ *       exactly once, in stream order, always on state pointer hash->s; stream block number k, offset o,
+ *       holds the stream byte at position p = 64 k + o, where stream(p) = old buf[p%64] for p < B0 and
+ *       data[p - B0] for p >= B0  (the oracle's block counter starts at B0/64: absolute block numbers);
  *   (c) afterwards buf[o] = stream(64 (B1/64) + o) for every o < B1%64;
  *   (d) hash->s is changed by compression calls only; len = 0 changes nothing;
  *   (e) no byte outside data[0..len) is read (data is an exact-size object; the oracle and the memcpy
@@ -35,7 +35,7 @@ void h_write(void) {
     INPUT(uint32_t, s0a); INPUT(uint32_t, s0b); INPUT(unsigned, sk);
     INPUT(uint64_t, wblk); INPUT(unsigned, woff);
     secp256k1_sha256 h; secp256k1_hash_ctx hc; unsigned char *data;
-    uint64_t b1, nb, p, q; unsigned i;
+    uint64_t b1, p, q; unsigned i;
     __CPROVER_assume(len <= MAXLEN);
     __CPROVER_assume(b0 <= UINT64_MAX - len);            /* the function's precondition: the byte counter does not wrap */
     __CPROVER_assume(woff < 64 && sk < 8);
@@ -43,21 +43,22 @@ void h_write(void) {
     for (i = 0; i < 8; i++) h.s[i] = (i == sk) ? s0a : s0b;
     memcpy(h.buf, buf0, 64); h.bytes = b0;
     hc.fn_sha256_compression = verif_compress;
-    COMPLOG_RESET(); g_cw_blk = wblk; g_cw_off = woff;
+    __CPROVER_assume(wblk <= (UINT64_MAX >> 6));
+    COMPLOG_RESET(); g_c_blocks = b0 / 64; g_cw_blk = wblk; g_cw_off = woff;
     g_mc_base = (unsigned char *)&h; g_mc_doff = offsetof(secp256k1_sha256, buf) + woff; g_mc_calls = 0;
 
     secp256k1_sha256_write(&hc, &h, data, len);
 
-    b1 = b0 + len; nb = b1 / 64 - b0 / 64;
+    b1 = b0 + len;
     __CPROVER_assert(h.bytes == b1, "C05 sha256_write (a): bytes' = bytes + len");
-    __CPROVER_assert(g_c_blocks == nb, "C05 sha256_write (b): exactly (bytes+len)/64 - bytes/64 blocks are compressed");
+    __CPROVER_assert(g_c_blocks == b1 / 64, "C05 sha256_write (b): exactly the blocks bytes/64 .. (bytes+len)/64 - 1 are compressed");
     __CPROVER_assert(g_c_bad == 0 && g_c_calls <= 2, "C05 sha256_write (b): at most two compression calls, none empty");
     __CPROVER_assert((g_c_calls < 1 || g_c_state[0] == h.s) && (g_c_calls < 2 || g_c_state[1] == h.s), "C05 sha256_write (b): every compression call works on hash->s");
-    if (wblk < nb) {
-        p = (b0 / 64 + wblk) * 64 + woff;
+    if (b0 / 64 <= wblk && wblk < b1 / 64) {
+        p = wblk * 64 + woff;
         __CPROVER_assert(g_cw_hit == 1, "C05 sha256_write (b): every complete block of the stream is delivered exactly once");
         if (p < b0) __CPROVER_assert(g_cw_byte == buf0[woff], "C05 sha256_write (b): bytes before old bytes come from the buffered tail, same offset");
-        else __CPROVER_assert(g_cw_byte == data[p - b0], "C05 sha256_write (b): delivered byte at block j offset o is data[64(B0/64+j)+o-B0]");
+        else __CPROVER_assert(g_cw_byte == data[p - b0], "C05 sha256_write (b): delivered byte of stream block k offset o is data[64k+o-B0]");
     } else {
         __CPROVER_assert(g_cw_hit == 0, "C05 sha256_write (b): no block beyond the complete ones is delivered");
     }
@@ -69,8 +70,8 @@ void h_write(void) {
     __CPROVER_assert(h.s[sk] == (g_c_calls ? g_c_out[sk] : s0a), "C05 sha256_write (d): state words are changed by the compression function only");
     if (len == 0) __CPROVER_assert(h.buf[woff] == buf0[woff] && g_c_calls == 0 && g_mc_calls == 0, "C05 sha256_write (d): an empty write changes nothing");
 
-    if (g_c_calls == 2 && wblk == 0 && woff >= b0 % 64) REACH("write: tail completed and bulk call, watched byte from data in block 0");
-    if (g_c_calls == 2 && wblk == 5000 && len > 400000) REACH("write: long input, watched block 5000");
+    if (g_c_calls == 2 && wblk == b0 / 64 && woff >= b0 % 64) REACH("write: tail completed and bulk call, watched byte from data in block 0");
+    if (g_c_calls == 2 && wblk == b0 / 64 + 5000 && len > 400000) REACH("write: long input, watched block 5000");
     if (g_c_calls == 0 && len > 0 && woff < b1 % 64 && woff >= b0 % 64) REACH("write: buffered only");
     if (g_c_calls == 1 && b0 % 64 == 0 && b1 % 64 == 0 && len > 64) REACH("write: aligned bulk");
     if (g_mc_calls == 2) REACH("write: two copies into the buffer");
@@ -83,14 +84,14 @@ void h_write(void) {
 void h_write_c(void) {
     INPUT(uint64_t, b0); INPUT(size_t, len); INPUT_ARR(unsigned char, bufc, 64); INPUT_ARR(uint32_t, sc, 8);
     INPUT(uint64_t, wblk); INPUT(unsigned, woff); INPUT(unsigned, sk);
-    INPUT(uint64_t, c_blocks); INPUT(size_t, c_calls); INPUT(int, cw_hit); INPUT(unsigned char, cw_byte);
+    INPUT(size_t, c_calls); INPUT(int, cw_hit); INPUT(unsigned char, cw_byte);
     secp256k1_sha256 h; secp256k1_hash_ctx hc; unsigned char *data; uint64_t blocks0;
     __CPROVER_assume(len <= MAXLEN);
     INPUT_BUF(datac, data, len, 64);
     memcpy(h.s, sc, 32); memcpy(h.buf, bufc, 64); h.bytes = b0;
     hc.fn_sha256_compression = verif_compress;
-    COMPLOG_RESET(); g_c_blocks = c_blocks; g_c_calls = c_calls; g_cw_hit = cw_hit; g_cw_byte = cw_byte;
-    g_cw_blk = wblk; g_cw_off = woff; g_sk = sk; blocks0 = c_blocks;
+    COMPLOG_RESET(); g_c_blocks = b0 / 64; g_c_calls = c_calls; g_cw_hit = cw_hit; g_cw_byte = cw_byte;
+    g_cw_blk = wblk; g_cw_off = woff; g_sk = sk; blocks0 = g_c_blocks;
     g_mc_base = (unsigned char *)&h; g_mc_doff = offsetof(secp256k1_sha256, buf) + woff; g_mc_calls = 0;
     secp256k1_sha256_write(&hc, &h, data, len);
     if (g_c_calls == c_calls + 2 && wblk == blocks0 + 7 && g_cw_hit == cw_hit + 1) REACH("write contract: two compression calls, watched block 7 of this call");
@@ -108,35 +109,38 @@ void h_write2(void) {
     INPUT(uint64_t, b0); INPUT(size_t, la); INPUT(size_t, lb); INPUT_ARR(unsigned char, tl0, 64);
     INPUT(uint64_t, wblk); INPUT(unsigned, woff); INPUT(unsigned, sk);
     secp256k1_sha256 h; secp256k1_hash_ctx hc; unsigned char *d;
-    uint64_t b2, nb, r0;
+    uint64_t b2, p, q;
     __CPROVER_assume(la <= MAXLEN && lb <= MAXLEN);
     __CPROVER_assume(b0 <= UINT64_MAX - la - lb);
     __CPROVER_assume(woff < 64 && sk < 8);
     INPUT_BUF(dw, d, la + lb, 64);
     memcpy(h.buf, tl0, 64); h.bytes = b0;
     hc.fn_sha256_compression = verif_compress;
-    COMPLOG_RESET(); g_cw_blk = wblk; g_cw_off = woff; g_sk = sk; g_mc_calls = 0;
+    __CPROVER_assume(wblk <= (UINT64_MAX >> 6));
+    COMPLOG_RESET(); g_c_blocks = b0 / 64; g_cw_blk = wblk; g_cw_off = woff; g_sk = sk; g_mc_calls = 0;
 
     secp256k1_sha256_write(&hc, &h, d, la);
     secp256k1_sha256_write(&hc, &h, d + la, lb);
 
-    b2 = b0 + la + lb; nb = b2 / 64 - b0 / 64; r0 = b0 % 64;
+    b2 = b0 + la + lb;
     __CPROVER_assert(h.bytes == b2, "C05 sha256_write split lemma (a): byte count as for one write of a||b");
-    __CPROVER_assert(g_c_blocks == nb, "C05 sha256_write split lemma (b): number of blocks as for one write of a||b");
-    if (wblk < nb) {
+    __CPROVER_assert(g_c_blocks == b2 / 64, "C05 sha256_write split lemma (b): block counter as for one write of a||b");
+    if (b0 / 64 <= wblk && wblk < b2 / 64) {
+        p = wblk * 64 + woff;
         __CPROVER_assert(g_cw_hit == 1, "C05 sha256_write split lemma (b): every complete block of the stream is delivered exactly once");
-        if (wblk * 64 + woff < r0) __CPROVER_assert(g_cw_byte == tl0[woff], "C05 sha256_write split lemma (b): old tail bytes delivered at their offset");
-        else __CPROVER_assert(g_cw_byte == d[wblk * 64 + woff - r0], "C05 sha256_write split lemma (b): delivered blocks are those of the stream tail||a||b");
+        if (p < b0) __CPROVER_assert(g_cw_byte == tl0[woff], "C05 sha256_write split lemma (b): old tail bytes delivered at their offset");
+        else __CPROVER_assert(g_cw_byte == d[p - b0], "C05 sha256_write split lemma (b): delivered blocks are those of the stream tail||a||b");
     } else {
-        __CPROVER_assert(g_cw_hit == 0, "C05 sha256_write split lemma (b): no further block is delivered");
+        __CPROVER_assert(g_cw_hit == 0, "C05 sha256_write split lemma (b): no other block is delivered");
     }
     if (woff < b2 % 64) {
-        if (nb * 64 + woff < r0) __CPROVER_assert(h.buf[woff] == tl0[woff], "C05 sha256_write split lemma (c): old tail stays when no block completes");
-        else __CPROVER_assert(h.buf[woff] == d[nb * 64 + woff - r0], "C05 sha256_write split lemma (c): tail as for one write of a||b");
+        q = (b2 / 64) * 64 + woff;
+        if (q < b0) __CPROVER_assert(h.buf[woff] == tl0[woff], "C05 sha256_write split lemma (c): old tail stays when no block completes");
+        else __CPROVER_assert(h.buf[woff] == d[q - b0], "C05 sha256_write split lemma (c): tail as for one write of a||b");
     }
-    if (g_cw_hit && la % 64 != 0 && lb > 200 && wblk == 1) REACH("write2: unaligned split, block 1 delivered");
-    if (g_cw_hit && wblk > 70 && la < 64) REACH("write2: watched block far in b");
+    if (g_cw_hit && la % 64 != 0 && lb > 200 && wblk == b0 / 64 + 1) REACH("write2: unaligned split, block 1 delivered");
+    if (g_cw_hit && wblk > b0 / 64 + 70 && la < 64) REACH("write2: watched block far in b");
     if (la == 0 && lb > 64) REACH("write2: empty first write");
-    if (la > 0 && la < 10 && lb > 0 && lb < 10 && b0 % 64 == 60 && woff < 5 && g_c_blocks == 1) REACH("write2: block completed by the second write, tail from b");
+    if (la > 0 && la < 10 && lb > 0 && lb < 10 && b0 % 64 == 60 && woff < 5 && g_c_blocks == b0 / 64 + 1) REACH("write2: block completed by the second write, tail from b");
     REACH("write2 end");
 }
